@@ -842,6 +842,12 @@ type Header struct {
 	AppID         uint32
 	CacheSize     uint32
 	VersionNumber uint32
+	// StaleSize (1..999, 0 = off): the file as a writer older than SQLite
+	// 3.7.0 leaves it after appending to a file of a newer one - the
+	// in-header size is that many per mille of the real page count and the
+	// version-valid-for number no longer equals the change counter, which is
+	// how a reader knows not to believe the size.
+	StaleSize int `json:",omitempty"`
 }
 
 // Finish writes sqlite_master (root page 1), the freelist and the header and
@@ -945,6 +951,14 @@ func (b *Builder) FinishRaw(master [][]Field, h Header, masterOpts TreeOpts) []b
 	binary.BigEndian.PutUint32(p1[68:], h.AppID)
 	binary.BigEndian.PutUint32(p1[92:], h.ChangeCounter)
 	binary.BigEndian.PutUint32(p1[96:], h.VersionNumber)
+	if h.StaleSize > 0 {
+		stale := maxPg * h.StaleSize / 1000
+		if stale < 1 {
+			stale = 1
+		}
+		binary.BigEndian.PutUint32(p1[28:], uint32(stale))
+		binary.BigEndian.PutUint32(p1[92:], h.ChangeCounter-1)
+	}
 	img := make([]byte, maxPg*b.U)
 	for p, buf := range b.pages {
 		if p <= maxPg {
